@@ -18,6 +18,7 @@ for d in "$@"; do
   [ -z "$place" ] && place=.
   [ "$place" = "root" ] && place=.
   place=${place#./}; [ -z "$place" ] && place=.
+  [ -d "$WT/$place" ] || place=.
   echo "== $d (demo in $place)" > $R
   cd $WT && git checkout -q -- . && git clean -fdq
   # demo on clean tree: must pass
